@@ -341,7 +341,19 @@ def _case(s, eapi, got, kind, msg):
     return {"s": s, "eapi": eapi, "got": got, "kind": kind, "msg": msg}
 
 
+def _default_sigterm():
+    """pkgcore.ebuild.processor (pulled in by pkgcore.test.misc) installs a SIGTERM handler that raises SystemExit;
+    the runner's task wrapper catches BaseException, so a worker terminated in mid-task (time cap) would swallow the
+    signal and pool.terminate() would wait for it for ever.  Workers take the default action instead."""
+    import signal
+
+    import pkgcore.test.misc  # noqa: F401  (installs the handler at import time)
+
+    signal.signal(signal.SIGTERM, signal.SIG_DFL)
+
+
 def work(task):
+    _default_sigterm()
     kind, tier, lo, hi = task
     es = eapis()
     evals = 0
